@@ -23,6 +23,7 @@ mod c07;
 mod c08;
 mod cfimodel;
 mod exprvm;
+mod fullasm;
 
 use crate::core::{Prop, Tier};
 use std::path::Path;
